@@ -28,7 +28,11 @@ RULE = ("(1) calibrate_scores called directly: exhaustive over all score vectors
         "scales; integer images in tsv, dyadic ones in Parquet), whose estimator returns float32 or int64 decision values, all three "
         "label encodings, several prediction chunks; runs with a list of previously trained fold models (given in rotated order); "
         "runs with one previously trained model that gets worse when re-fitted (brew then scores each file with the original model "
-        "and calibrates per file through OnDiskPsmDataset.calibrate_scores): returned scores compared exactly "
+        "and calibrates per file through OnDiskPsmDataset.calibrate_scores); runs whose estimator has BOTH decision_function and "
+        "predict_proba returning different values (predict_proba = the squared column, another feature column, the negated column, a "
+        "logistic image; of shape (n,2), (n,1), (n,)) — the decision function's values are the raw scores —, estimators with "
+        "decision_function only and with predict_proba only (all three shapes; returned as they are), the two-method estimators also "
+        "in the list of previously trained fold models and as the previously trained model brew falls back to: returned scores compared exactly "
         "with the model's calibrated rationals. non-trivial: direct = has both targets and decoys and a tie or a decoy above a "
         "target; brew = the run returned scores from a decision_function estimator and every (file, fold) group had an accepted "
         "target above its decoy median so that the anchored map was compared value by value, or brew stopped with the calibration "
@@ -115,6 +119,8 @@ def gen(ctx):
     cases += _gen_direct_more(ctx)
     cases += _gen_ondisk(ctx)
     cases += _gen_brew_more(ctx)
+    # ------------------------------------------------------------------ round 5
+    cases += _gen_brew_both(ctx)
     _DIRECT_BY_ID.clear()
     _DIRECT_BY_ID.update({id(c): c for c in cases if c["fn"] == "cal"})
     _MODEL_CACHE.clear()
@@ -285,6 +291,66 @@ def _gen_brew_more(ctx):
         c["pre_idx"] = rng.randint(0, folds - 1)
         c["seed2"] = rng.randint(0, 10 ** 6)
         c["tags"] += ["pretrained-model-reset", "fdr=" + c["test_fdr"], "decision"]
+        cases.append(c)
+    return cases
+
+
+# estimators that have BOTH decision_function and predict_proba (as LogisticRegression, SVC(probability=True), SGDClassifier(
+# loss="log_loss"), gradient boosting have), the two returning DIFFERENT values (brewlib.Transparent kinds "pp-<values>-<shape>"):
+# the raw scores are the decision function's values, in training and in prediction alike, and they are calibrated
+BOTH_KINDS = ["pp-sq-2col", "pp-other-2col", "pp-sig-2col", "pp-neg-2col", "pp-sq-1d", "pp-other-1col", "pp-sig-1d", "pp-neg-1col",
+              "pp-other-1d", "pp-sq-1col"]
+# neighbours: no predict_proba at all; predict_proba only (no calibration: its values are returned as they are), in every
+# shape _get_scores admits (two columns, one column, one dimension)
+PROBA_ONLY_KINDS = ["pp-same-1d", "pp-same-1col", "pp-same-2col"]
+
+
+def _gen_brew_both(ctx):
+    cases = []
+    rng = ctx.sub("cal-brew-both")
+    for k in range(96 if ctx.thorough else 20):
+        folds = rng.choice([2, 2, 3, 3, 4, 5, 6])
+        c = _brew_case(rng, rng.choice([1, 1, 2, 3]), folds, 30 * folds, 60 * folds, quality=rng.choice([0.8, 0.9, 0.95]))
+        slot = k % 8
+        if slot == 6:
+            c["est_kind"] = "dec-only"
+            c["tags"] += ["decision_function-only"]
+        elif slot == 7:
+            c["est_kind"] = PROBA_ONLY_KINDS[(k // 8) % len(PROBA_ONLY_KINDS)]
+            c["est_mode"] = "proba"
+            c["tags"] += ["predict_proba-only", "proba-shape=" + c["est_kind"].split("-")[2]]
+        else:
+            c["est_kind"] = BOTH_KINDS[(k - k // 8 * 2) % len(BOTH_KINDS)]
+            _, what, shape = c["est_kind"].split("-")
+            c["tags"] += ["both-methods", "proba-values=" + what, "proba-shape=" + shape]
+        if k % 5 == 4 and c["est_mode"] == "decision":
+            aff = rng.choice([[0, -50], [0, -7], [3, -400], [10, 0], [0, 10 ** 6]])
+            c["feat_affine"] = aff
+            c["tags"] += ["feat-affine", "scale=2^%d" % aff[0], "offset=%g" % aff[1]]
+        c["tags"] += ["fdr=" + c["test_fdr"], c["est_mode"]]
+        cases.append(c)
+    # the same estimators in a list of previously trained fold models (prediction only in the observed run) ...
+    rng = ctx.sub("cal-brew-both-pretrained")
+    for k in range(16 if ctx.thorough else 4):
+        folds = rng.choice([2, 3, 3, 4])
+        c = _brew_case(rng, rng.choice([1, 1, 2]), folds, 30 * folds, 50 * folds, quality=0.9, thr=rng.choice(["0.5", "0.25", "0.1"]))
+        c["mode"] = "pretrained"
+        c["rot"] = rng.randint(0, folds - 1)
+        c["seed2"] = rng.randint(0, 10 ** 6)
+        c["est_kind"] = BOTH_KINDS[(3 * k) % len(BOTH_KINDS)] if k % 4 != 3 else "dec-only"
+        c["tags"] += ["pretrained-model-list", "both-methods" if k % 4 != 3 else "decision_function-only", "est=" + c["est_kind"],
+                      "fdr=" + c["test_fdr"], "decision"]
+        cases.append(c)
+    # ... and as the one previously trained model that brew falls back to when its re-fit is worse (Model.predict on whole files)
+    rng = ctx.sub("cal-brew-both-reset")
+    for k in range(9 if ctx.thorough else 3):
+        folds = rng.choice([2, 3, 4])
+        c = _brew_case(rng, rng.choice([1, 2]), folds, 30 * folds, 50 * folds, quality=0.9, thr=rng.choice(["0.5", "0.25"]))
+        c["mode"] = "reset"
+        c["pre_idx"] = rng.randint(0, folds - 1)
+        c["seed2"] = rng.randint(0, 10 ** 6)
+        c["est_kind"] = ["pp-sq-2col", "pp-sig-1d", "pp-neg-1col"][k % 3]
+        c["tags"] += ["pretrained-model-reset", "both-methods", "est=" + c["est_kind"], "fdr=" + c["test_fdr"], "decision"]
         cases.append(c)
     return cases
 
@@ -529,7 +595,30 @@ def _refit_class():
                 if lbl is not None:
                     out[j] = -1000.0 if lbl == 1 else 1000.0
             return out
+
+    class RefitBoth(Refit):
+        """the same with a predict_proba that returns OTHER values than decision_function (kinds as brewlib.Transparent):
+        the decision function's values are the raw scores; the re-fit is worse whichever of the two is looked at"""
+
+        def __init__(self, kind="pp-sq-2col"):
+            self.kind = kind
+
+        def predict_proba(self, X):
+            _, what, shape = self.kind.split("-")
+            s = np.asarray(X[:, self.col_], dtype=float)
+            p = s * s if what == "sq" else (-s if what == "neg" else 1.0 / (1.0 + np.exp(-(s - 50.0) / 8.0)))
+            lo, hi = (0.0, 1.0) if what == "sig" else (-1e6, 1e6)
+            for j in range(X.shape[0]):
+                lbl = self.mem_.get(int(X[j, 0]))
+                if lbl is not None:
+                    p[j] = lo if lbl == 1 else hi
+            if shape == "1d":
+                return p
+            if shape == "1col":
+                return p.reshape(-1, 1)
+            return np.vstack([(1.0 - p) if what == "sig" else -p, p]).T
     _refit_class.cls = Refit
+    _refit_class.both = RefitBoth
     return Refit
 
 
@@ -548,7 +637,13 @@ def _two_brews(c):
         with brewlib.Chunking(**c.get("chunks", {})):
             dss = mokapot.read_pin(paths, max_workers=1)
             brewlib.reset_log()
-            est = Transparent(mode="decision", learn=True) if mode == "pretrained" else _refit_class()()
+            if mode == "pretrained":
+                est = Transparent(mode="decision", learn=True, kind=c.get("est_kind", "col"))
+            elif str(c.get("est_kind", "")).startswith("pp-"):
+                _refit_class()
+                est = _refit_class.both(kind=c["est_kind"])
+            else:
+                est = _refit_class()()
             model = Model(est, scaler=RecScaler(), train_fdr=1.0, max_iter=1, override=True, rng=c["seed"])
             try:
                 _, models1, _, _ = mokapot.brew(dss, model, test_fdr=1.0, folds=k, max_workers=1, rng=c["seed"])
